@@ -18,6 +18,18 @@ CHECKS = {
         technique='sidecar contracts + own VC generator (symbolic execution of the real AST) + z3/cvc5; native replay of counter-models'),
 }
 
+CHECKS['C19'] = dict(
+    category='proof',
+    text='Deductive: clean_values is executed symbolically for every representation (number, list/tuple shorter, equal and longer than n, '
+         'mapping with symbolic positive/negative positions) and shown equal to the explicit per-player vector of spec/values.py; '
+         'State.__post_init__ raises ValueError exactly for the invalid layouts of the statement (all amounts symbolic); utilities.divmod '
+         'and utilities.rake return parts that add up, over Z and over Q, with no size parameter at all. The 70-card text round trip is '
+         'decided by exhaustive closed evaluation (label E).',
+    design_ref='DESIGN.md section 4 (C19), section 8',
+    note='D/shape for clean_values/__post_init__ (n listed in evidence); card-SEQUENCE text forms only by a bounded stand-in (label B, '
+         'reported separately, never counted); user-supplied divmod/rake not covered; float arithmetic treated as real.',
+    technique='sidecar contracts + own VC generator + z3 (linear / nonlinear real arithmetic); exhaustive closed evaluation for 70 cards')
+
 NOT_APPLICABLE = {
     'C20': 'regex-driven text importers against external site formats; no contract within reach expresses or decides it (DESIGN.md section 5)',
 }
